@@ -46,7 +46,8 @@ def ncStep (l : NC) (op : Val) : Option (Except Err NC) :=
     else if t = lit "add_nc" then (decodeAdds arg).map fun args => do
       let other ← NC.addNotes [] args            -- the other container voices its own bare names first
       NC.addNotes l (other.map NC.AddArg.obj)
-    else if t = lit "remove_name" then match arg with | .str nm => some (.ok (NC.removeByName l nm (-1))) | _ => none
+    else if t = lit "remove_name" ∨ t = lit "remove_notes_str" ∨ t = lit "minus_str" then
+      match arg with | .str nm => some (.ok (NC.removeByName l nm (-1))) | _ => none
     else if t = lit "remove_names" ∨ t = lit "minus" then match arg with
       | .list names => some (.ok (names.foldl (fun acc v => match v with
           | .str nm => NC.removeByName acc nm (-1)
@@ -59,7 +60,7 @@ def ncStep (l : NC) (op : Val) : Option (Except Err NC) :=
     if t = lit "augment" then some (NC.augment l) else if t = lit "diminish" then some (NC.diminish l) else none
   | .list [.str t, .str nm, .int o] =>
     if t = lit "remove_name_oct" then some (.ok (NC.removeByName l nm o))
-    else if t = lit "remove_obj" then some (.ok (NC.removeObj l ⟨nm, o, 1, 64⟩))
+    else if t = lit "remove_obj" ∨ t = lit "remove_notes_obj" ∨ t = lit "minus_obj" then some (.ok (NC.removeObj l ⟨nm, o, 1, 64⟩))
     else none
   | _ => none
 
@@ -161,7 +162,7 @@ partial def decodeItem : Val → Option Track.ChordItem
 def trackStep (t : Track) (op : Val) : Option (Except Err (Val × Track)) :=
   match op with
   | .list [.str tg, c, v] =>
-    if tg = lit "add" then
+    if tg = lit "add" ∨ tg = lit "add_raw" then      -- add_raw: a plain list of Note objects instead of a NoteContainer
       match decodeContent c, ratOf v with
       | some (.ok content), some q => some ((t.addNotes content q).map fun r => (toVal r.1, r.2))
       | some (.error e), _ => some (.error e)
